@@ -47,6 +47,7 @@ type c05AppRun struct {
 	MsgFail int
 	Updates int
 	Errs    map[string]bool
+	Obs     *engine.Violation // what the observer reported
 }
 
 func c05AppMsgs(c *apph.Chain, op string, depNonce *uint64) []*apph.Msg {
@@ -91,11 +92,21 @@ func c05AppMsgs(c *apph.Chain, op string, depNonce *uint64) []*apph.Msg {
 	return nil
 }
 
+// appObserver looks at the application after every block of a path (op = the block's letter); a violation it returns
+// ends the execution.
+type appObserver func(c *apph.Chain, op string) *engine.Violation
+
 // c05AppExec replays path on a fresh application, then produces `horizon` ordinary blocks.
-func c05AppExec(path []int, horizon int) c05AppRun {
+func c05AppExec(path []int, horizon int) c05AppRun { return appExec(path, horizon, nil) }
+
+func appExec(path []int, horizon int, mkObs func() appObserver) c05AppRun {
 	c := apph.New(3)
 	defer c.Close()
 	r := c05AppRun{Errs: map[string]bool{}}
+	var obs appObserver
+	if mkObs != nil {
+		obs = mkObs()
+	}
 	dep := uint64(0)
 	all := []bool{true, true, true}
 	for i, o := range path {
@@ -131,11 +142,23 @@ func c05AppExec(path []int, horizon int) c05AppRun {
 		}
 		r.Updates += len(c.LastUpdates)
 		r.Hashes = append(r.Hashes, hex.EncodeToString(c.LastHash))
+		if obs != nil {
+			if v := obs(c, op); v != nil {
+				r.Obs, r.FailAt = v, i
+				return r
+			}
+		}
 	}
 	for k := 0; k < horizon; k++ {
 		if f := c.Block(all, nil); f != nil {
 			r.Fail, r.FailAt = f, len(path)+k
 			return r
+		}
+		if obs != nil {
+			if v := obs(c, "Block"); v != nil {
+				r.Obs, r.FailAt = v, len(path)+k
+				return r
+			}
 		}
 	}
 	return r
@@ -181,6 +204,10 @@ func c05AppViolation(path []int, r c05AppRun) *engine.Found {
 
 // c05AppSearch explores all paths up to depth over c05AppOps, merging states with equal application hash.
 func c05AppSearch(tier string, workers int) (map[string]interface{}, *engine.Found) {
+	return appSearch(tier, workers, nil)
+}
+
+func appSearch(tier string, workers int, mkObs func() appObserver) (map[string]interface{}, *engine.Found) {
 	depth, horizon := 4, 3
 	if tier == "thorough" {
 		depth = 5
@@ -221,7 +248,7 @@ func c05AppSearch(tier string, workers int) (map[string]interface{}, *engine.Fou
 				defer wg.Done()
 				for j := range jobs {
 					p := append(append([]int{}, frontier[j.s].path...), j.o)
-					r := c05AppExec(p, horizon)
+					r := appExec(p, horizon, mkObs)
 					mu.Lock()
 					out = append(out, res{j, r})
 					mu.Unlock()
@@ -243,6 +270,12 @@ func c05AppSearch(tier string, workers int) (map[string]interface{}, *engine.Fou
 			if x.r.Fail != nil {
 				if found == nil {
 					found = c05AppViolation(p, x.r)
+				}
+				continue
+			}
+			if x.r.Obs != nil {
+				if found == nil {
+					found = &engine.Found{Violation: *x.r.Obs, Path: c05AppPath(p), Reproduced: 1}
 				}
 				continue
 			}
